@@ -188,7 +188,10 @@ def part_pysem(sc):
     picked = []
     for p in progs:
         s = p["src"]
-        if any(tok in s for tok in ("~", "[", "Qfixed", "Qlist", "Tuple", "min(", "max(", "sum(", "len(", "int(", "float(", "all(", "any(")):
+        import re
+        if "[" in re.sub(r"Qint\[\d+\]", "", s):
+            continue
+        if any(tok in s for tok in ("~", "Qchar", "Qfixed", "Qlist", "Tuple", "min(", "max(", "sum(", "len(", "int(", "float(", "all(", "any(")):
             continue
         picked.append(s)
     picked = picked[:250]
